@@ -101,7 +101,7 @@ def _gen_seqs(rng, kind):
         else:
             r = [rng.choice(letters) for _ in range(rng.randint(1, maxlen))]
         rows.append(r if t == "custom" else "".join(r))
-    return {"type": t, "rows": rows, "alphabet": alph, "container": rng.choice(["list", "list", "tuple"])}
+    return {"type": t, "rows": rows, "alphabet": alph, "container": rng.choice(["list", "list", "tuple", "generator"])}
 
 
 def _gen_script(rng, kind, faulty):
@@ -747,10 +747,13 @@ class Sim:
                 cls = app_class(k)
                 default_bin = {"clustalo": "clustalo", "muscle3": "muscle", "muscle5": "muscle", "mafft": "mafft"}[k]
                 rec.bin = ws["bin"] or default_bin
-                args = [seqs] + ([ws["bin"]] if ws["bin"] else [])
+                # documented: any iterable of sequences; a generator can be consumed only once
+                given = (x for x in seqs) if ws["seqs"].get("container") == "generator" else seqs
+                rec.seqs = list(seqs)
+                args = [given] + ([ws["bin"]] if ws["bin"] else [])
                 if self.real:
                     rec.bin = self.real_bin(rec)
-                    args = [seqs, rec.bin]
+                    args = [given, rec.bin]
                     self.ctrl_for(rec)  # the version probe of the constructor reads the banner from it
                 kwargs = {}
                 if k != "muscle5" and matrix is not None:
@@ -1390,8 +1393,10 @@ class Sim:
             kwargs["bin_path"] = ws["bin"]
         if matrix is not None:
             kwargs["matrix"] = matrix
+        given = (x for x in seqs) if ws["seqs"].get("container") == "generator" else seqs
+        rec.seqs = list(seqs)
         try:
-            st, val = call(cls.align, seqs, **kwargs)
+            st, val = call(cls.align, given, **kwargs)
         finally:
             self.world.current = None
         fails = None
